@@ -57,6 +57,8 @@ def local(v):
             out.append(VBool(n == 1))
         if abs(n) <= 900:
             out.append(VFloat(n * 100))
+    elif k == "float" and v["sp"] == "fin" and v["q"] == 200000:
+        out += [VFloat(150000), VInf]
     elif k == "float":
         if v["sp"] == "fin":
             q = v["q"]
